@@ -82,7 +82,7 @@ def run_miri(pid, job, seed, tier, work):
         e = dict(env)
         e["MIRIFLAGS"] = "-Zmiri-disable-isolation -Zmiri-many-seeds=%d..%d" % (lo, hi)
         cmd = ["cargo", "+nightly", "miri", "run", "--offline", "--bin", "flowcheck", "--target-dir",
-               os.path.join(engines.HARNESS, "target-miri"), "--", "miri", "--script", str(i % 6)]
+               os.path.join(engines.HARNESS, "target-miri"), "--", "miri", "--script", str(i % 7)]
         try:
             p = subprocess.run(cmd, cwd=engines.HARNESS, env=e, stdout=subprocess.PIPE, stderr=subprocess.PIPE, text=True,
                                timeout=job.get("timeout_s", 1500))
@@ -93,7 +93,7 @@ def run_miri(pid, job, seed, tier, work):
     with ThreadPoolExecutor(max_workers=shards) as ex:
         outs = list(ex.map(one, range(shards)))
     res["shards"] = shards
-    res["rule"] = ("Miri interpreter, seeded preemptive thread scheduling (-Zmiri-many-seeds) over 6 scripts with 1-2 waiter threads and 1-2 mutator "
+    res["rule"] = ("Miri interpreter, seeded preemptive thread scheduling (-Zmiri-many-seeds) over 7 scripts with 1-2 waiter threads and 1-2 mutator "
                    "threads on the real FlowControl; Miri additionally checks data races, weak-memory behaviours and deadlock. Non-trivial: a "
                    "waiter parked at least once. Distinct: (script, poll-count vector) over seeds.")
     for i, lo, hi, rc, out, err, cmd in outs:
